@@ -94,6 +94,12 @@ def _impl(tier, seed, search):
         T6 = np.eye(4); T6[:3, :3] = R; T6[:3, 3] = t
         ok, r = L.noraise('UDQ', lambda: UnitDualQuaternion(SE3(T6, check=False)).SE3().A, dict(T=T6), 'SE3 -> UnitDualQuaternion -> SE3')
         if ok: L.close('SE3->UDQ->SE3', r, T6, TOL, max(1.0, geom.tmag(T6)), dict(T=T6))
+        # … and acts on points as the rigid motion does (the product of two of them too)
+        pq_ = g.normal(size=3) * 10.0 ** g.uniform(-1, 1)
+        ok, r = L.noraise('UDQ*point', lambda: (np.asarray(UnitDualQuaternion(X) * pq_, float).flatten(), np.asarray((UnitDualQuaternion(X) * UnitDualQuaternion(Y)) * pq_, float).flatten()), dict(X=T, p=pq_), 'UnitDualQuaternion * point')
+        if ok:
+            L.close('UDQ(X)*p = X*p', r[0], T[:3, :3] @ pq_ + T[:3, 3], TOL, max(sc, float(np.max(np.abs(pq_)))), dict(X=T, p=pq_), what='a unit dual quaternion built from an SE3 moves a point differently from the SE3', sig='UDQ*point')
+            L.close('(UDQ(X)UDQ(Y))*p = X*Y*p', r[1], (T @ Tb)[:3, :3] @ pq_ + (T @ Tb)[:3, 3], TOL, max(sc, float(np.max(np.abs(pq_)))) * max(1.0, geom.tmag(T)), dict(X=T, Y=Tb, p=pq_), sig='UDQ*point')
         ok, r = L.noraise('UDQ hom', lambda: ((UnitDualQuaternion(X) * UnitDualQuaternion(Y)).SE3().A, (X * Y).A), dict(X=T, Y=Tb), 'UDQ(X)*UDQ(Y)')
         if ok: L.close('UDQ(X)*UDQ(Y)', r[0], r[1], TOL, sc, dict(X=T, Y=Tb))
         # named constructors agree across classes
@@ -163,6 +169,16 @@ def _impl(tier, seed, search):
         if ok:
             L.close('exp(pure w/2)=EulerVec(w)', b.q2r(r[0] / np.linalg.norm(r[0])), b.q2r(r[1]), TOL, 1.0, dict(w=w), what='the quaternion exponential of w/2 and UnitQuaternion.EulerVec(w) are different rotations', sig='Quaternion.exp')
             L.close('exp(pure):unit', float(np.linalg.norm(r[0])), 1.0, TOL, 1.0, dict(w=w), sig='Quaternion.exp')
+        # the quaternion logarithm is the inverse of that exponential on either hemisphere (scalar part of either sign), and twice its
+        # vector part is a rotation vector of the same rotation
+        for sg_ in (1.0, -1.0):
+            qh_ = np.asarray(UnitQuaternion.EulerVec(w).vec, float) * sg_
+            if np.linalg.norm(qh_[1:]) < 1e-6: continue
+            ok, r = L.noraise('Quaternion.log', lambda: (np.asarray(UnitQuaternion(qh_, norm=False).log().exp().vec, float), np.asarray(UnitQuaternion(qh_, norm=False).log().vec, float)), dict(q=qh_), 'UnitQuaternion.log()')
+            if ok:
+                L.close('exp(log q)=q', r[0], qh_, TOL, 1.0, dict(q=qh_), what='exp(log(q)) is not q for a unit quaternion' + (' with negative scalar part' if qh_[0] < 0 else ''), sig='Quaternion.log')
+                L.close('2 log(q).v is a rotation vector of q', inputs.rodrigues(r[1][1:] / max(1e-300, np.linalg.norm(r[1][1:])), 2 * float(np.linalg.norm(r[1][1:]))), b.q2r(qh_), TOL, 1.0, dict(q=qh_), sig='Quaternion.log')
+                L.close('log(q).s = 0', float(r[1][0]), 0.0, TOL, 1.0, dict(q=qh_), sig='Quaternion.log')
         # conversion commutes with inversion on sequences too: (A.inv())[i] = A[i].inv() in every representation
         if i % 4 == 2:
             Ts_ = [np.block([[rot_near(g)[0], inputs.translation(g).reshape(3, 1)], [np.zeros((1, 3)), np.ones((1, 1))]]) for _ in range(3)]
